@@ -257,6 +257,11 @@ def decide(prop, tier, seed, t0):
                 # the property promises an expansion for this input (the model has one and the predicate applies to it);
                 # the implementation panicked or reported an error instead
                 failing.append(r)
+            elif prop == "C15" and r.get("class") == "error" and not r.get("agree") and r.get("real") is not None and \
+                    r.get("real") != "PANIC" and not str(r.get("real")).startswith(":: core :: compile_error"):
+                # the model rejects this input with a diagnostic (for the documented misuses: with their specific message, theorem
+                # c15_misuse_message) and the implementation expanded it: the misuse went unreported
+                failing.append(r)
             if (not det) or (not aeq):
                 tie_broken.append(r)
     extra_evals = 0
